@@ -13,7 +13,9 @@ Starts == {{"pw"}, {"pw", "totp"}}
 \* clisend_oldtoken: exchange a CLI identity token obtained months ago (with a hardware token) using the start session
 \* totp_rolecert_other / botp_rolecert_other: a second-factor endpoint called with ANOTHER principal's IP-restricted
 \*     certificate (that principal proves ITS factor) and the user's start cookie riding along
-Vias == {"none", "clisend_oldtoken", "totp_rolecert_other", "botp_rolecert_other"}
+\* totp_other_twocookies / botp_other_twocookies: ANOTHER user completes HIS factor with his own session cookie, and the
+\*     user's start cookie is sent in the same request under the same name, before it
+Vias == {"none", "clisend_oldtoken", "totp_rolecert_other", "botp_rolecert_other", "totp_other_twocookies", "botp_other_twocookies"}
 WebUIs == {"pw", "u2f"}
 
 \* the web-UI level is met by the start session
